@@ -737,8 +737,9 @@ class WorkWorld(World):
             # an edge label LONGER than the key bits that remain is not a dictionary at all; below it sits a ladder of shared
             # cells (both references to the next cell) that ends in a library cell: a parser that walks on with a negative
             # remaining length visits 2^depth paths of a ~100-byte input
-            plan.append({'op': 'parse_overlong', 'depth': rng.choice([12, 20, 30, 60]), 'form': rng.choice(['short', 'long', 'same']), 'below': rng.choice([0, 0, 1, 2]),
-                         'over': rng.choice([1, 2, 5])})
+            for ladder in ('short', rng.choice(['same', 'long'])):
+                plan.append({'op': 'parse_overlong', 'depth': rng.choice([12, 20, 30, 60]), 'form': rng.choice(['short', 'long', 'same']) if ladder == 'short' else rng.choice(['long', 'same']),
+                             'below': rng.choice([0, 0, 1, 2]), 'over': rng.choice([1, 2, 5]), 'ladder': ladder})
         else:
             plan = [o for o in ops if o['op'] in ('parse', 'parse_overlong')]
         ctx.tag(w, kind, len(keys), aug)
@@ -812,8 +813,16 @@ class WorkWorld(World):
             label = '111' + enc_uint(n, lb)
         extra = (enc_uint(0, 8) if aug else '')
         cur = library_ref_of(bytes(32))
-        for i in range(op['depth']):
-            cur = RCell('00' + extra, (cur, cur))
+        ladder = op.get('ladder', 'short')
+        for i in reversed(range(op['depth'])):
+            if ladder == 'short':
+                lab = '00'
+            else:
+                # empty labels in the long / same form, their length field as wide as a parser that carries the (negative)
+                # remaining length m - n - 1 - i down would read it
+                wdt = abs(m - n - 1 - i).bit_length()
+                lab = ('10' if ladder == 'long' else '110') + '0' * wdt
+            cur = RCell(lab + extra, (cur, cur))
         try:
             cur = RCell(label + extra, (cur, cur))
             for i in range(below):
@@ -829,7 +838,7 @@ class WorkWorld(World):
         else:
             thunk = lambda: HashMap.parse(lc.begin_parse(), w)
             what = 'HashMap.parse'
-        ctx.fault('dict-label-longer-than-remaining-key/' + form)
+        ctx.fault('dict-label-longer-than-remaining-key/' + form + ('' if ladder == 'short' else '/ladder-of-' + ladder + '-labels'))
         st, res, steps = metered(budget, thunk)
         ctx.op(op)
         ctx.evaluated(1)
